@@ -24,9 +24,30 @@ import (
 
 var out = bufio.NewWriter(os.Stdout)
 
+var lastEmit int64 // unix nanoseconds of the last emitted line
+
 func emit(op string, impl string) {
 	fmt.Fprintf(out, "%s\t%s\n", op, impl)
 	out.Flush() // a panic inside a library goroutine kills the process: keep what was observed so far
+	atomic.StoreInt64(&lastEmit, time.Now().UnixNano())
+}
+
+// selfWatchdog: every wait of the driver is meant to be bounded (seconds); should a scenario nevertheless produce
+// nothing for a minute, dump all goroutines and die, so that the check reports the scenario (stderr carries its
+// number and the stacks) instead of running into its own timeout with nothing to show.
+func selfWatchdog() {
+	atomic.StoreInt64(&lastEmit, time.Now().UnixNano())
+	go func() {
+		for {
+			time.Sleep(time.Second)
+			if time.Since(time.Unix(0, atomic.LoadInt64(&lastEmit))) > 60*time.Second {
+				buf := make([]byte, 1<<20)
+				fmt.Fprintf(os.Stderr, "driver c09: no progress for 60 s; goroutines:\n%s\n", buf[:runtime.Stack(buf, true)])
+				out.Flush()
+				os.Exit(3)
+			}
+		}
+	}()
 }
 
 // emitSc tags the scenario number into the cfg token ("<op> <cfg>,sc=<n> …") so that a replay can re-run exactly it.
@@ -45,11 +66,24 @@ func only(op string, n int) bool {
 	o := os.Getenv("VERIF_C09_ONLY")
 	ok := o == "" || o == fmt.Sprintf("%s:%d", op, n)
 	if ok {
+		// a scenario that took long is worth a line of its own (diagnosis of slow runs)
+		now := time.Now()
+		if !lastMark.IsZero() && now.Sub(lastMark) > 5*time.Second && lastName != fmt.Sprintf("%s %d", op, n) {
+			fmt.Fprintf(os.Stderr, "slow scenario %s: %.1fs\n", lastName, now.Sub(lastMark).Seconds())
+		}
+		if lastName != fmt.Sprintf("%s %d", op, n) {
+			lastMark, lastName = now, fmt.Sprintf("%s %d", op, n)
+		}
 		// marker for the check: which scenario was running if the process dies (a panic in a library goroutine)
 		fmt.Fprintf(os.Stderr, "scenario %s %d\n", op, n)
 	}
 	return ok
 }
+
+var (
+	lastMark time.Time
+	lastName string
+)
 
 // scRand: an independent PRNG per scenario (seed, part, scenario number).
 func scRand(seed int64, part, n int) *rand.Rand {
@@ -117,6 +151,18 @@ func libGoroutines() int {
 	return cnt
 }
 
+// censusBound: how long the census waits for goroutines / connections to be gone.  It returns as soon as they are, so a
+// healthy tree never pays for it; it is generous because the machine may be heavily loaded (the decision must not depend
+// on scheduling luck) and shrinks once scenarios have leaked or hung (a broken tree must cost seconds, not minutes).
+func censusBound() time.Duration {
+	if atomic.LoadInt32(&stuckScenarios) > 0 {
+		return 1500 * time.Millisecond
+	}
+	return 6 * time.Second
+}
+
+func censusSteps() int { return int(censusBound() / (2 * time.Millisecond)) }
+
 // settle waits until the number of library goroutines is back to base (or the bound expires) and returns the excess.
 func settle(base int, bound time.Duration) int {
 	deadline := time.Now().Add(bound)
@@ -126,6 +172,7 @@ func settle(base int, bound time.Duration) int {
 			return 0
 		}
 		if time.Now().After(deadline) {
+			noteStuck() // a leak: later scenarios use the short bounds, and after three the run stops
 			return n
 		}
 		time.Sleep(2 * time.Millisecond)
@@ -134,6 +181,7 @@ func settle(base int, bound time.Duration) int {
 
 func main() {
 	defer out.Flush()
+	selfWatchdog()
 	which := "all"
 	if len(os.Args) > 1 {
 		which = os.Args[1]
